@@ -102,6 +102,22 @@ def _group_sizes(m):
             "sensordata": m.nsensordata, "step": m.nq + m.nv + m.na}
 
 
+def _rest_cause(mj, m, kind, group, var):
+    """Mechanism attribution for the two defects of the unchanged tree that only exist exactly at the rest state."""
+    if kind != "rest":
+        return None
+    has_quat = any(int(t) in (0, 1) for t in m.jnt_type)
+    if has_quat and group == "step" and var in ("qvel", "mixed", "params", "ctrl", "act"):
+        # qvel directly; ctrl/act/params reach the next orientation through qacc*dt -> omega_next = 0 + dt*qacc
+        return "quat_integrate-gradient-vanishes-at-zero-angular-velocity"
+    if m.ntendon and np.any(np.asarray(m.tendon_stiffness) > 0) and var in ("dq", "mixed") and \
+            group in ("bias_passive", "qacc", "step", "sensordata"):
+        return "tendon-spring-gradient-zero-at-rest-length"
+    if has_quat and group == "step" and var == "dq":
+        return "quat_integrate-gradient-vanishes-at-zero-angular-velocity"
+    return None
+
+
 def check_model(R, xml, tags, case, P):
     from .. import mjxrepo
     from jax.flatten_util import ravel_pytree
@@ -250,7 +266,11 @@ def check_model(R, xml, tags, case, P):
                     nontriv = abs(fd1[gi]) > 1e-7 * (1 + abs(f0[gi]))
                     P.case("|".join([g, vname, mode, prof, integ, kind, feat]), nontrivial=bool(nontriv))
                     if err > 1e-4:
-                        P.violation("gradient-differs-from-finite-difference:" + sig_tail, dict(det, relerr=float(err)))
+                        cause = _rest_cause(mj, m, kind, g, vname)
+                        if cause:
+                            P.violation("gradient-differs-from-finite-difference@rest:%s[%s]" % (cause, mode), dict(det, relerr=float(err)))
+                        else:
+                            P.violation("gradient-differs-from-finite-difference:" + sig_tail, dict(det, relerr=float(err)))
                 if jac is not None and np.isfinite(jvp[di, gi]) and np.all(np.isfinite(jac[gi])):
                     r = float(jac[gi] @ v)
                     e2 = abs(r - jvp[di, gi]) / max(abs(r), abs(jvp[di, gi]), 1e-6 * (1 + abs(f0[gi])))
@@ -289,7 +309,7 @@ def worker(case):
 
 
 def _cases(ctx):
-    n = ctx.pick(16, 160)
+    n = ctx.pick(10, 160)
     cases = []
     for i in range(n):
         cases.append({"key": int(core.stable_hash("C45", ctx.seed, i)), "profile": ["smooth", "smooth", "eqonly", "smooth"][i % 4],
